@@ -22,7 +22,11 @@ static void rec(int kind, int who, int v, int payload) { if(g_obs) g_obs->push_b
 static std::string obsStr(const std::vector<Obs> & o) { std::string s = "["; static const char * kn[] = {"F", "L", "M2:", "policy:"}; for(auto & x : o) s += fmt("%s%d(v=%d%s) ", kn[x.kind], x.who, x.v, x.payload >= 0 ? fmt(",p=%d", x.payload).c_str() : ""); return s + "]"; }
 
 enum FilterKind { FK_PASS, FK_BLOCK, FK_ADD1, FK_BLOCK_IF_1, NFK };
-static const char * fkName(int k) { static const char * n[] = {"pass", "block", "add-1-to-arg", "block-if-arg==1"}; return n[k]; }
+// only in the main search: a filter that, the first time it runs, registers a listener for the very event being dispatched
+// ("install the default handler lazily") and passes - the listener is registered before the listeners are looked up, so the
+// same dispatch reaches it, whether or not the event had a listener list before
+static const int FK_REGISTER = NFK, NFKM = NFK + 1;
+static const char * fkName(int k) { static const char * n[] = {"pass", "block", "add-1-to-arg", "block-if-arg==1", "register-a-listener-on-first-run"}; return n[k]; }
 static bool applyFilter(int kind, int & v) {
 	switch(kind) { case FK_PASS: return true; case FK_BLOCK: return false; case FK_ADD1: v += 1; return true; case FK_BLOCK_IF_1: return v != 1; }
 	return true;
@@ -55,7 +59,19 @@ struct Harness {
 	typedef Proto<ArgKind> PR;
 	typedef typename D::Handle Handle; typedef typename D::FilterHandle FilterHandle;
 	Cfg cfg; Ctx & ctx; D * d = nullptr;
-	struct MF { int id; int kind; bool alive; };
+	struct MF { int id; int kind; bool alive; bool fired = false; };
+	struct Reg { int filter; int listener; int key; };
+	std::vector<Reg> toRegister;          // decided by the model when it predicts a dispatch, carried out by the real filter when it runs
+	std::map<int, int> keyOfPayload;
+	void onRegisterFilter(int f) {
+		for(size_t i = 0; i < toRegister.size(); ++i) if(toRegister[i].filter == f) {
+			Reg r = toRegister[i]; toRegister.erase(toRegister.begin() + i);
+			int id = r.listener;
+			ctx.log(fmt("  (filter F%d registers listener L%d for key %d)", f, id, r.key));
+			lh[id] = d->appendListener(r.key + 1, [id](const int & v, const Tracked & t) { rec(1, id, v, t.id); });
+			return;
+		}
+	}
 	std::vector<MF> filters; std::vector<FilterHandle> fh; std::vector<int> forder;
 	std::vector<int> lorder[2]; std::vector<Handle> lh; std::vector<int> lkey; std::vector<char> lalive;
 	int fslot[2], lslot[2]; int fadds = 0, ladds = 0; int nextPayload = 1; int pendingCount = 0;
@@ -68,14 +84,16 @@ struct Harness {
 
 	static std::vector<int> & filterCalls() { static std::vector<int> v; return v; }
 	void appendFilter(int kind) {
-		int id = (int)filters.size(); filters.push_back(MF{id, kind, true}); fh.push_back(FilterHandle());
+		int id = (int)filters.size(); { MF m; m.id = id; m.kind = kind; m.alive = true; filters.push_back(m); } fh.push_back(FilterHandle());
 		ctx.log(fmt("appendFilter(%s) -> F%d", fkName(kind), id));
 		// every filter carries its own invocation counter (a stateful filter: quota, dedup, rate limit): the mixin has to keep
 		// running the object it stored, not copies of it
 		filterCalls().resize(filters.size(), 0); filterCalls()[id] = 0;
 		Ctx * cx = &ctx;
 		int own = 0;
-		fh[id] = d->appendFilter([id, kind, own, cx](typename PR::FI v, typename PR::FT t) mutable -> bool {
+		Harness * self = this;
+		fh[id] = d->appendFilter([id, kind, own, cx, self](typename PR::FI v, typename PR::FT t) mutable -> bool {
+			if(kind == FK_REGISTER) self->onRegisterFilter(id);
 			++own; int seenByHarness = ++filterCalls()[id];
 			if(own != seenByHarness) cx->fail("filter-state-lost", fmt("filter F%d is at its invocation number %d, the dispatcher has run it %d times: it is not the stored filter object that runs", id, own, seenByHarness));
 			rec(0, id, v, t.id); return runFilter<typename PR::FI>(kind, v);
@@ -108,6 +126,12 @@ struct Harness {
 		int cur = v;
 		for(int f : forder) {
 			want.push_back(Obs{0, f, cur, payload});
+			if(filters[f].kind == FK_REGISTER && !filters[f].fired && (int)(lorder[0].size() + lorder[1].size()) <= cfg.maxListeners) {
+				filters[f].fired = true;
+				int id = (int)lh.size(); lh.push_back(Handle()); lkey.push_back(key); lalive.push_back(1);
+				lorder[key].push_back(id); lslot[ladds % 2] = id; ++ladds;
+				toRegister.push_back(Reg{f, id, key});
+			}
 			int before = cur;
 			bool pass = applyFilter(filters[f].kind, cur);
 			if(!PR::mutableArg) cur = before;       // const prototypes: filters cannot modify
@@ -158,9 +182,9 @@ struct Harness {
 	}
 	void queueOps(Bfs & b, int, std::false_type) { b.skip(); }
 
-	int menu() const { return NFK + 2 + 2 + 2 + 6 + (cfg.queue ? 8 : 0) + (cfg.twoMixins ? 1 : 0); }
+	int menu() const { return NFKM + 2 + 2 + 2 + 6 + (cfg.queue ? 8 : 0) + (cfg.twoMixins ? 1 : 0); }
 	void topOp(Bfs & b, int op) {
-		if(op < NFK) { if((int)forder.size() >= cfg.maxFilters) b.skip(); appendFilter(op); return; } op -= NFK;
+		if(op < NFKM) { if((int)forder.size() >= cfg.maxFilters) b.skip(); appendFilter(op); return; } op -= NFKM;
 		if(op < 2) { if(fslot[op] < 0) b.skip(); removeFilter(fslot[op]); return; } op -= 2;
 		if(op < 2) { if((int)(lorder[0].size() + lorder[1].size()) >= cfg.maxListeners) b.skip(); appendListener(op); return; } op -= 2;
 		if(op < 2) { if(lslot[op] < 0) b.skip(); removeListener(lslot[op]); return; } op -= 2;
@@ -170,7 +194,7 @@ struct Harness {
 	}
 	std::string key() {
 		std::string k = "F:";
-		for(int f : forder) k += fmt("%d,", filters[f].kind);
+		for(int f : forder) k += fmt("%d%s,", filters[f].kind, filters[f].fired ? "f" : "");
 		k += "|";
 		for(int i = 0; i < 2; ++i) k += fslot[i] < 0 ? std::string("e,") : filters[fslot[i]].alive ? fmt("%d,", (int)(std::find(forder.begin(), forder.end(), fslot[i]) - forder.begin())) : std::string("d,");
 		k += fmt("a%d|L:%zu,%zu|", fadds % 2, lorder[0].size(), lorder[1].size());
@@ -205,7 +229,7 @@ struct Harness {
 	}
 	void body(Bfs & b) {
 		ledger().reset(); g_block2 = false;
-		filters.clear(); fh.clear(); forder.clear(); lh.clear(); lkey.clear(); lalive.clear(); lorder[0].clear(); lorder[1].clear(); pending.clear();
+		filters.clear(); fh.clear(); forder.clear(); lh.clear(); lkey.clear(); lalive.clear(); lorder[0].clear(); lorder[1].clear(); pending.clear(); toRegister.clear();
 		fslot[0] = fslot[1] = lslot[0] = lslot[1] = -1; fadds = ladds = 0; nextPayload = 1;
 		D disp; d = &disp;
 		struct Clear { Harness * h; ~Clear() { h->fh.clear(); h->lh.clear(); } } clr{this};
